@@ -34,7 +34,7 @@ def build_native(spec, suite_dir, scratch, log, extra_defs=()):
         lib = [build_lib(scratch, log), "-lpthread"]
         srcs = []
     for s in srcs:
-        sp = os.path.join(REPO, s)
+        sp = os.path.join(VERIF, "suites", s[8:]) if s.startswith("@suites/") else os.path.join(REPO, s)
         o = os.path.join(scratch, "n_" + re.sub(r"\W", "_", s) + ".o")
         cc = "gcc" if s.endswith((".c", ".S")) else "g++"
         cmd = [cc] + (["-std=c++11"] if cc == "g++" else []) + flags + inc + ["-c", sp, "-o", o]
